@@ -341,13 +341,9 @@ class JsonSchemaGenerator:
         if required:
             data.update(required=required)
         if self.output:
-            # dependencies are checked on the input; in the output only those that are output
-            # properties themselves can be promised (a no_output dependency is never there)
-            dependent_required = {
-                key: [dep for dep in deps if dep in properties]
-                for key, deps in dependent_required.items()
-            }
-            dependent_required = {key: deps for key, deps in dependent_required.items() if deps}
+            # dependencies are a contract on the input (they apply to a field that is given, not to one
+            # that takes its default, and a dependency may be no_output): nothing to promise in the output
+            dependent_required = {}
         if dependent_required:
             data.update(dependentRequired=dependent_required)
         addition = options.addition
